@@ -48,8 +48,8 @@ func (g *Gen) addIfaceDemo() *S {
 		&StructDef{Name: sq, Fields: []string{"W"}, FTypes: []*Ty{TInt}},
 		&StructDef{Name: rc, Fields: []string{"W", "H"}, FTypes: []*Ty{TInt, TInt}},
 		&StructDef{Name: box, Fields: []string{"S", "N"}, FTypes: []*Ty{tShape, TInt}})
-	p.Ifaces = append(p.Ifaces, &Iface{Name: shape, Methods: []string{"Area", "Grow"},
-		Sigs: []*FuncSig{{Results: []*Ty{TInt}}, {Params: []*Ty{TInt}}}})
+	p.Ifaces = append(p.Ifaces, &Iface{Name: shape, Methods: []string{"Area", "Grow", "Self", "Show"},
+		Sigs: []*FuncSig{{Results: []*Ty{TInt}}, {Params: []*Ty{TInt}}, {Results: []*Ty{tShape}}, {Results: []*Ty{TInt}}}})
 	q := v("q", PtrTo(sq))
 	rr := v("r", PtrTo(rc))
 	k := v("k", TInt)
@@ -58,6 +58,11 @@ func (g *Gen) addIfaceDemo() *S {
 		{Name: sq + ".Grow", Recv: "q", RecvTy: sq, Params: []string{"k"}, PTypes: []*Ty{TInt}, Body: []*S{{K: "opassign", Lhs: []*E{fld(q, "W", TInt)}, Op: "+", E: k}}},
 		{Name: rc + ".Area", Recv: "r", RecvTy: rc, Results: []*Ty{TInt}, Body: []*S{ret(bin("*", TInt, fld(rr, "W", TInt), fld(rr, "H", TInt)))}},
 		{Name: rc + ".Grow", Recv: "r", RecvTy: rc, Params: []string{"k"}, PTypes: []*Ty{TInt}, Body: []*S{{K: "opassign", Lhs: []*E{fld(rr, "H", TInt)}, Op: "+", E: k}, {K: "incdec", Lhs: []*E{fld(rr, "W", TInt)}, D: 1}}},
+		// methods that hand their own receiver on: as an interface result, and to a function taking the interface
+		{Name: sq + ".Self", Recv: "q", RecvTy: sq, Results: []*Ty{tShape}, Body: []*S{ret(q)}},
+		{Name: rc + ".Self", Recv: "r", RecvTy: rc, Results: []*Ty{tShape}, Body: []*S{ret(rr)}},
+		{Name: sq + ".Show", Recv: "q", RecvTy: sq, Results: []*Ty{TInt}, Body: []*S{ret(&E{K: "call", Fn: "grow" + tag, Ty: TInt, NRes: 1, Args: []*E{q, lit(TInt, 1)}})}},
+		{Name: rc + ".Show", Recv: "r", RecvTy: rc, Results: []*Ty{TInt}, Body: []*S{ret(&E{K: "call", Fn: "grow" + tag, Ty: TInt, NRes: 1, Args: []*E{rr, lit(TInt, 2)}})}},
 		{Name: "pick" + tag, Params: []string{"k"}, PTypes: []*Ty{TInt}, Results: []*Ty{tShape}, Body: []*S{
 			{K: "if", Cond: bin("==", TBool, bin("%", TInt, k, lit(TInt, 2)), lit(TInt, 0)), Then: []*S{ret(newS(sq, "W", k))}},
 			ret(newS(rc, "W", k, "H", lit(TInt, int64(2+r.Intn(3)))))}},
@@ -99,6 +104,13 @@ func (g *Gen) addIfaceDemo() *S {
 			{K: "expr", E: mc(s, "Grow", nil, lit(TInt, 1)), NRes: 0},
 			pr(sS("mval"), &E{K: "callv", X: v("mv", FuncTy(&FuncSig{Results: []*Ty{TInt}})), Ty: TInt, NRes: 1}, mc(s, "Area", TInt))},
 	}
+	// one call site, consecutive receivers of different struct types that come from method receivers
+	tSq, tRc := PtrTo(sq), PtrTo(rc)
+	blocks = append(blocks,
+		[]*S{dcl("a1", newS(sq, "W", lit(TInt, 2))), dcl("b1", newS(rc, "W", lit(TInt, 2), "H", lit(TInt, 3))),
+			{K: "range", X: &E{K: "slicelit", Ty: SliceOf(tShape), Args: []*E{mc(v("a1", tSq), "Self", tShape), mc(v("b1", tRc), "Self", tShape), mc(v("a1", tSq), "Self", tShape), pick(lit(TInt, 5))}},
+				KName: "_", VName: "e", Body: []*S{pr(sS("self"), mc(v("e", tShape), "Area", TInt))}},
+			pr(sS("show"), mc(v("a1", tSq), "Show", TInt), mc(v("b1", tRc), "Show", TInt), mc(v("a1", tSq), "Show", TInt), mc(mc(v("b1", tRc), "Self", tShape), "Show", TInt))})
 	r.Shuffle(len(blocks), func(i, j int) { blocks[i], blocks[j] = blocks[j], blocks[i] })
 	for _, bl := range blocks[:3+r.Intn(len(blocks)-2)] {
 		body = append(body, bl...)
